@@ -222,6 +222,10 @@ func (c *Check) AddBFS(name string, r *explore.BFSReport, replayCfg any) {
 	p["new_states_per_depth"] = r.PerDepth
 	p["exhaustive"] = r.Exhaustive
 	p["wall_s"] = r.Wall.Seconds()
+	if r.Unconfirmed > 0 {
+		p["violations_not_reproduced_on_rerun"] = r.Unconfirmed
+		p["first_not_reproduced"] = r.FirstUnconfirmed
+	}
 	if r.Capped != "" {
 		p["capped"] = r.Capped
 		c.caps = append(c.caps, name+": "+r.Capped)
